@@ -284,12 +284,12 @@ pub fn events_c12(ci: usize, case: &Value) -> Vec<Value> {
         let name = table.rust_module_name(m);
         let skeleton = |k: &rsproj::RCrate| k.module(&name).map(|md| (md.uses.clone(), md.attrs.clone(), md.items.len()));
         evs.push(json!({"ev": "modcmp", "case": ci, "module": table.module_name(m), "ctx": ctx, "def": "",
-                        "enum_sensitive": false, "other_ok": other.outcome.status == "ok",
+                        "enum_sensitive": false, "same_name": false, "other_ok": other.outcome.status == "ok",
                         "same": skeleton(&full.krate) == skeleton(&other.krate)}));
         for d in table.defs().iter().filter(|d| d.m == m) {
             let dn = table.def_name(d.idx);
             evs.push(json!({"ev": "modcmp", "case": ci, "module": table.module_name(m), "ctx": ctx, "def": dn,
-                            "enum_sensitive": enum_sensitive(d.idx), "other_ok": other.outcome.status == "ok",
+                            "enum_sensitive": enum_sensitive(d.idx), "same_name": false, "other_ok": other.outcome.status == "ok",
                             "same": items_of(&full.krate, &dn) == items_of(&other.krate, &dn)}));
         }
     };
@@ -314,8 +314,29 @@ pub fn events_c12(ci: usize, case: &Value) -> Vec<Value> {
     let (k1, k2) = (compile_hooked(&s1), compile_hooked(&s2));
     for dn in ["Mmsens", "Aasensw", "Zzsensw"] {
         evs.push(json!({"ev": "modcmp", "case": ci, "module": "Sensmod", "ctx": "compiled together with an unrelated module of 40 definitions", "def": dn,
-                        "enum_sensitive": false, "other_ok": k1.outcome.status == "ok" && k2.outcome.status == "ok",
+                        "enum_sensitive": false, "same_name": false, "other_ok": k1.outcome.status == "ok" && k2.outcome.status == "ok",
                         "same": items_of(&k1.krate, dn) == items_of(&k2.krate, dn)}));
+    }
+    // two revisions of one module: the same module reference, different headers, disjoint names (spec/Headers.tla).  The second
+    // revision compiled alone and together with the first, in both orders: its bindings must be the same
+    if ci % 4 == 0 {
+        let tagdefs = ["IMPLICIT TAGS", "EXPLICIT TAGS", "AUTOMATIC TAGS", ""];
+        let (t1, t2) = (tagdefs[(ci / 4) % 4], tagdefs[(ci / 16) % 4]);
+        let implied2 = (ci / 4) % 2 == 0;
+        let r1 = format!("Proto {{ iso(1) identified-organization(3) example(9999) proto(1) revision-1(1) }}\nDEFINITIONS {t1} {} ::= BEGIN\nAlpha ::= SEQUENCE {{ first INTEGER, second BOOLEAN }}\nEND\n",
+                         if implied2 { "" } else { "EXTENSIBILITY IMPLIED" });
+        let r2 = format!("Proto {{ iso(1) identified-organization(3) example(9999) proto(1) revision-2(2) }}\nDEFINITIONS {t2} {} ::= BEGIN\nBeta ::= SEQUENCE {{ third [0] INTEGER, fourth [1] BOOLEAN }}\nGamma ::= SEQUENCE {{ g INTEGER, h NULL }}\nEND\n",
+                         if implied2 { "EXTENSIBILITY IMPLIED" } else { "" });
+        let alone = compile_hooked(&[r2.clone()]);
+        for (label, srcs) in [("before", vec![r1.clone(), r2.clone()]), ("after", vec![r2.clone(), r1.clone()])] {
+            let both = compile_hooked(&srcs);
+            for dn in ["Beta", "Gamma"] {
+                evs.push(json!({"ev": "modcmp", "case": ci, "module": "Proto", "ctx": format!("compiled together with another module of the same module reference, handed over {label} it"), "def": dn,
+                                "enum_sensitive": false, "same_name": true, "other_ok": alone.outcome.status == "ok" && both.outcome.status == "ok",
+                                "same": items_of(&alone.krate, dn) == items_of(&both.krate, dn),
+                                "asn": format!("{r1}{r2}")}));
+            }
+        }
     }
     for m in &order {
         let name = table.rust_module_name(*m);
